@@ -208,4 +208,14 @@ example : exIn.issKind = .new ∧ exEnv.shown.length = 1 ∧
 example : (exEnv.tx.outputs.map TxOut.isFeeShown) = [true] ∧ (exEnv.tx.outputs.map TxOut.isFee) = [false] := by
   decide
 
+set_option maxRecDepth 20000 in
+/-- the whole pipeline on the example, without unfolding the hash: the marshalled environment shows
+the null-valued output as a fee output, leaf version 0xbe, two path elements, and `current_sequence`
+as the 32 bits of 0xfffffffe -/
+example : jetC (.output .isFee 0) (cBuild (marshal exEnv)) = some [true, true] ∧
+    jetC (.nullary .tapleafVersion) (cBuild (marshal exEnv)) = some (byteBits 0xbe) ∧
+    jetC (.tappath 2) (cBuild (marshal exEnv)) = some [false] ∧
+    (jetC (.tappath 1) (cBuild (marshal exEnv))).map List.length = some 257 ∧
+    jetC (.current .sequence) (cBuild (marshal exEnv)) = some (natBits 32 0xfffffffe) := by decide
+
 end Props.C15
